@@ -166,6 +166,7 @@ class AaAnswer(Aa):
         AvpGenDef("origin_host", AVP_ORIGIN_HOST, is_required=True),
         AvpGenDef("origin_realm", AVP_ORIGIN_REALM, is_required=True),
         AvpGenDef("user_name", AVP_USER_NAME),
+        AvpGenDef("service_type", AVP_SERVICE_TYPE),
         AvpGenDef("state_class", AVP_CLASS),
         AvpGenDef("configuration_token", AVP_CONFIGURATION_TOKEN),
         AvpGenDef("acct_interim_interval", AVP_ACCT_INTERIM_INTERVAL),
@@ -308,6 +309,7 @@ class AaRequest(Aa):
     route_record: list[bytes]
     af_charging_identifier: str
     media_component_description: MediaComponentDescription
+    media_sub_component: MediaSubComponent
     supported_features: SupportedFeatures
     specific_action: list[int]
     subscription_id: list[SubscriptionId]
@@ -331,7 +333,7 @@ class AaRequest(Aa):
         AvpGenDef("port_limit", AVP_PORT_LIMIT),
         AvpGenDef("user_name", AVP_USER_NAME),
         AvpGenDef("user_password", AVP_USER_PASSWORD),
-        AvpGenDef("service_stype", AVP_SERVICE_TYPE),
+        AvpGenDef("service_type", AVP_SERVICE_TYPE),
         AvpGenDef("state", AVP_STATE),
         AvpGenDef("authorization_lifetime", AVP_AUTHORIZATION_LIFETIME),
         AvpGenDef("auth_grace_period", AVP_AUTH_GRACE_PERIOD),
